@@ -30,14 +30,14 @@ def label(r):
 def host(c, r, i):
     labels = [label(r) for _ in range(1 + r.below(4))]
     name = b'.'.join(labels)
-    ips = [r.below(2 ** 32) for _ in range(r.choice([0, 1, 2, 5, 40]))]
+    ips = [r.below(2 ** 32) for _ in range(r.choice([0, 1, 2, 5, 40]) if not r.chance(1, 12) else r.choice([255, 256, 257, 1000]))]   # counts around 2^8 too
     if ips and r.chance(1, 2):      # repeated addresses, adjacent and not
         k = r.below(len(ips)); ips.insert(k, ips[k])
         if r.chance(1, 2): ips.append(ips[0])
     client, ns, ttl, raw = r.below(2 ** 32), r.choice([0x01010101, r.below(2 ** 32)]), r.choice([229, 0, 2 ** 32 - 1, r.below(2 ** 32)]), r.chance(1, 3)
     args = ['-=ip4:%d' % client, '-=' + s(name)] + (['ttl=u32:%d' % ttl] if ttl != 229 else []) + (['ns=ip4:%d' % ns] if ns != 0x01010101 else []) + (['raw=bool:true'] if raw else []) + ['-=ip4:%d' % x for x in ips]
     res, req = call_both(c, [['dns::host'] + args])
-    rep = dict(req=req[:2500])
+    rep = dict(req=req[:60000])
     if not res[0].startswith('ok pktgen:['):
         bad(c, 'host-failed', 'dns::host failed: %s' % res[0][:100], rep); return None
     frames = [core.unhex(x) for x in res[0][len('ok pktgen:['):-1].split(',')]
